@@ -4,6 +4,7 @@ CONSTANTS
   Mode = "chars"
   MaxLen = 4
   MaxTok = 0
+  PumpK = 0
   Advance = TRUE
   Shard = 0
   NShards = 1
